@@ -453,7 +453,13 @@ impl<K: Kind> Stream for Upstream<K> {
     fn poll_next(self: Pin<&mut Self>, cx: &mut Context<'_>) -> Poll<Option<K::UpItem>> {
         let _cb = CbGuard::enter();
         watchdog_tick();
+        let here = self.as_ref().get_ref() as *const Self as usize;
         let plan = g(|g| {
+            // a pinned upstream is polled at one address for its whole life (kind 10)
+            if g.up.addr != 0 && g.up.addr != here {
+                g.logf(format_args!("vtbad 10 0"));
+            }
+            g.up.addr = here;
             let up = &mut g.up;
             if up.ended {
                 g.logf(format_args!("uppoll after-end"));
@@ -528,6 +534,11 @@ impl<K: Kind> Stream for Upstream<K> {
 impl<K> Drop for Upstream<K> {
     fn drop(&mut self) {
         let _cb = CbGuard::enter();
+        // ... and dropped where it was polled
+        let here = self as *const Self as usize;
+        if g(|g| g.up.addr != 0 && g.up.addr != here) {
+            logf!("vtbad 10 0");
+        }
         logf!("updrop");
     }
 }
